@@ -6,6 +6,17 @@
 char *dgettext(const char *d, const char *m) { (void)d; return (char *)m; }
 char *bindtextdomain(const char *d, const char *dir) { (void)d; (void)dir; return (char *)"x"; }
 
+#ifndef CFGV_OWN_PI_ENTRY
+/* default text of the CFG_VERIF_PI_ENTRY hook for units that are not about the parser loop: no effect */
+int cfgv_pi_entry(cfg_t *cfg, int level, int force_state, cfg_opt_t *force_opt, int *state, char **comment, char **opttitle,
+		  cfg_opt_t **opt, cfg_value_t **val, cfg_opt_t *funcopt, int *ignore, int *num_values, int *result)
+{
+	(void)cfg; (void)level; (void)force_state; (void)force_opt; (void)state; (void)comment; (void)opttitle; (void)opt; (void)val;
+	(void)funcopt; (void)ignore; (void)num_values; (void)result;
+	return 0;
+}
+#endif
+
 /* diagnostic monitor: installed as cfg->errfunc, so the real cfg_error() runs */
 static int g_diag;          /* number of diagnostics delivered */
 static cfg_t *g_diag_cfg;   /* context handed to the error function last */
